@@ -443,7 +443,7 @@ def evidence(prop, tier, base_seed, done, selftest_info, wall, t_runs, nviol, kn
         "coverage": cov,
         "assumptions": [
             "the reference model (refmodel.py) states the wire format of docs/language.rst; it is cross-checked against the real encoders on every tick (encoder_vs_reference_mismatch) and on every same-version delivery (control_failures)",
-            "generated schemas avoid constructs whose misbehaviour belongs to other properties (enums wider than 8 bits or sparse, alias-of-array elements, message names ending in digits)",
+            "generated schemas avoid constructs whose misbehaviour belongs to other properties (enums wider than 8 bits or sparse, message names ending in digits)",
             "Go is not executed",
         ],
         "wall_s": round(wall, 2),
